@@ -847,7 +847,13 @@ pub fn run(ctx: &mut Ctx) {
         if !ctx.wants(case) {
             continue;
         }
-        let mut r = Rng::new(ctx.seed, fam, case);
+        // one case in five is *enumerated*: a fixed base per shape and focus, and a history read off the case number digit by digit
+        // over the operations available in the current world (bounded-exhaustive: every history of length 1, 2, ... in turn)
+        let enumerated: Option<u64> = if case % 5 == 4 { Some(case / 5) } else { None };
+        let mut r = match enumerated {
+            Some(e) => Rng::new(20260921, "edit-enum-base", e % 24),
+            None => Rng::new(ctx.seed, fam, case),
+        };
         let mut w = World {
             ents: vec![],
             handles: vec![],
@@ -859,7 +865,12 @@ pub fn run(ctx: &mut Ctx) {
             has_reffunc_global: false,
             allow_meminit: true,
         };
-        let shape = r.below(8);
+        let shape = match enumerated {
+            Some(e) => ((e % 24) / 3) as usize,
+            None => r.below(8),
+        };
+        let focus = enumerated.map_or(0, |e| (e % 3) as usize);
+        let mut digits: u64 = enumerated.map_or(0, |e| e / 24);
         let base = gen_base(&mut r, &mut w, shape);
         w.allow_meminit = w.sites.iter().any(|s| matches!(s.class, Class::Code { variant: 6, .. }) && s.sp == Sp::M);
         let bytes = match wat::parse_str(&base.wat) {
@@ -874,8 +885,13 @@ pub fn run(ctx: &mut Ctx) {
         }
         let mut positional = base.positional;
         // ------------- run the history against the real crate, generating each operation from the current world
-        let nops = r.weighted(&[1, 2, 3, 3, 3, 2, 2, 1, 1]);
-        let double_encode = r.chance(1, 5);
+        // enumerated: the length is the number of digits (the most significant digit is read last, so every prefix-free history occurs once)
+        let mut nops = r.weighted(&[1, 2, 3, 3, 3, 2, 2, 1, 1]);
+        let double_encode = r.chance(1, 5) && enumerated.is_none();
+        if enumerated.is_some() {
+            nops = 6;
+            ctx.count("history=enumerated");
+        }
         let mut op_tokens: Vec<String> = vec![];
         let mut rets: Vec<String> = vec![];
         let mut encs: Vec<Result<Vec<u8>, String>> = vec![];
@@ -900,10 +916,25 @@ pub fn run(ctx: &mut Ctx) {
         let mut leaked: Vec<String> = vec![];
         let _ = &mut leaked;
         for step in 0..=nops {
-            let last = step == nops;
+            let mut last = step == nops;
             // ---- choose an operation
+            let mut chosen: Option<Op> = None;
+            if enumerated.is_some() && !last {
+                // digits are written in bijective numeration: 0 = end of the history
+                if digits == 0 {
+                    last = true;
+                } else {
+                    let cs = candidates(&w, &import_ids, focus);
+                    let n = cs.len() as u64;
+                    let dgt = (digits - 1) % n;
+                    digits = (digits - 1) / n;
+                    chosen = Some(materialise(&cs[dgt as usize], &mut w));
+                }
+            }
             let op = if last {
                 Op::Enc
+            } else if let Some(o) = chosen {
+                o
             } else {
                 gen_op(&mut r, &mut w, &import_ids)
             };
@@ -1007,8 +1038,14 @@ pub fn run(ctx: &mut Ctx) {
                     }
                 }
             }
+            if last {
+                break;
+            }
         }
         let _ = &mut positional;
+        if enumerated.is_some() {
+            ctx.count(&format!("enumerated-history-length={}", op_tokens.iter().filter(|t| *t != "enc").count()));
+        }
         ctx.case_line(&format!("edit {case} {} OPS={}", base.case_tokens, if op_tokens.is_empty() { "-".into() } else { op_tokens.join(";") }));
         for (c, nm) in [(0, "retF"), (1, "retG"), (2, "retM"), (3, "retX")] {
             let v: Vec<String> = op_tokens
@@ -1221,6 +1258,147 @@ enum Ret {
     Bool(bool),
     Unit,
     Encoded(Vec<u8>),
+}
+
+/// bounded-exhaustive mode: the operations available in the current world, as descriptors (no site is registered until one is chosen)
+#[derive(Clone, Debug)]
+enum Cand {
+    Alf(Option<(Sp, usize)>), // a built function, optionally with one reference to a handle
+    Aif,
+    Df(usize),
+    L2i(usize),
+    Ri(usize, u32),
+    Inj(usize, Sp, usize, usize), // into function handle, one reference to (space, handle), placement
+    AexF(usize),
+    Dex(usize),
+    Ag,
+    Aig,
+    Iag,
+    Dg(usize),
+    Mg(usize),
+    Alm,
+    Aim,
+    Dm(usize),
+}
+
+/// `focus` 0: the function space (C06, C09-C11), 1: the global space (C07), 2: the memory space (C08); each with the injections that
+/// refer to it. The order is deterministic (handles in creation order).
+fn candidates(w: &World, import_ids: &HashMap<usize, u32>, focus: usize) -> Vec<Cand> {
+    let mut v = vec![];
+    let lf = w.live_handles(Sp::F);
+    let local_f: Vec<usize> = lf.iter().copied().filter(|h| !w.entity(w.handles[*h].cur.unwrap()).imp).collect();
+    match focus {
+        0 => {
+            v.push(Cand::Alf(None));
+            for h in &lf {
+                v.push(Cand::Alf(Some((Sp::F, *h))));
+            }
+            v.push(Cand::Aif);
+            for h in &lf {
+                v.push(Cand::Df(*h));
+            }
+            for h in &local_f {
+                v.push(Cand::L2i(*h));
+            }
+            for h in &lf {
+                if w.entity(w.handles[*h].cur.unwrap()).imp {
+                    if let Some(i) = import_ids.get(h) {
+                        v.push(Cand::Ri(*h, *i));
+                    }
+                }
+            }
+            for h in &local_f {
+                for t in &lf {
+                    v.push(Cand::Inj(*h, Sp::F, *t, 1 + (*t % 2)));
+                }
+            }
+            for h in &lf {
+                v.push(Cand::AexF(*h));
+            }
+            for p in 0..w.export_deleted.len() {
+                if !w.export_deleted[p] {
+                    v.push(Cand::Dex(p));
+                }
+            }
+        }
+        1 => {
+            let lg = w.live_handles(Sp::G);
+            v.push(Cand::Ag);
+            v.push(Cand::Aig);
+            v.push(Cand::Iag);
+            for h in &lg {
+                v.push(Cand::Dg(*h));
+            }
+            for h in &lg {
+                let e = w.entity(w.handles[*h].cur.unwrap());
+                if !e.imp && matches!(e.gk, Some(GKind::Marker { .. })) {
+                    v.push(Cand::Mg(*h));
+                }
+            }
+            if let Some(h) = local_f.first() {
+                for t in &lg {
+                    v.push(Cand::Inj(*h, Sp::G, *t, 0));
+                }
+            }
+            v.push(Cand::Aif);
+        }
+        _ => {
+            let lm = w.live_handles(Sp::M);
+            v.push(Cand::Alm);
+            v.push(Cand::Aim);
+            if lm.len() > 1 {
+                for h in &lm {
+                    v.push(Cand::Dm(*h));
+                }
+            }
+            if let Some(h) = local_f.first() {
+                for t in &lm {
+                    v.push(Cand::Inj(*h, Sp::M, *t, 0));
+                }
+            }
+            v.push(Cand::Alf(lm.first().map(|t| (Sp::M, *t))));
+        }
+    }
+    v
+}
+
+fn materialise(c: &Cand, w: &mut World) -> Op {
+    match c {
+        Cand::Alf(t) => {
+            let uid = w.ent(Sp::F, false, None);
+            let sites = match t {
+                Some((sp, h)) => vec![w.site(*sp, *h, Class::Code { owner: uid, variant: 0 })],
+                None => vec![],
+            };
+            Op::Alf { uid, sites }
+        }
+        Cand::Aif => Op::Aif { uid: w.ent(Sp::F, true, None) },
+        Cand::Df(h) => Op::Df { h: *h },
+        Cand::L2i(h) => Op::L2i { h: *h, uid: w.ent(Sp::F, true, None) },
+        Cand::Ri(h, imp_id) => Op::Ri { imp_id: *imp_id, h: Some(*h), uid: w.ent(Sp::F, false, None), sites: vec![] },
+        Cand::Inj(h, sp, t, at) => {
+            let owner = w.handles[*h].cur.unwrap();
+            let s = w.site(*sp, *t, Class::Code { owner, variant: 0 });
+            Op::Inj { h: *h, sites: vec![s], at: *at }
+        }
+        Cand::AexF(h) => {
+            let pos = w.export_deleted.len();
+            w.export_deleted.push(false);
+            Op::Aex { site: w.site(Sp::F, *h, Class::Export { pos }) }
+        }
+        Cand::Dex(p) => Op::Dex { pos: *p },
+        Cand::Ag => {
+            let gk = GKind::Marker { mutable: true };
+            Op::Ag { uid: w.ent(Sp::G, false, Some(gk)), gk, site: None }
+        }
+        Cand::Aig => Op::Aig { uid: w.ent(Sp::G, true, Some(GKind::Imported { vt: 1 })), vt: 1 },
+        Cand::Iag => Op::Iag { uid: w.ent(Sp::G, false, Some(GKind::Marker { mutable: true })) },
+        Cand::Dg(h) => Op::Dg { h: *h },
+        Cand::Mg(h) => Op::Mg { h: *h, site: None, version: 3 },
+        Cand::Alm => Op::Alm { uid: w.ent(Sp::M, false, None) },
+        Cand::Aim => Op::Aim { uid: w.ent(Sp::M, true, None) },
+        Cand::Dm(h) => Op::Dm { h: *h },
+    }
 }
 
 fn gen_op(r: &mut Rng, w: &mut World, import_ids: &HashMap<usize, u32>) -> Op {
